@@ -456,6 +456,40 @@ func TestVerifC09Stress(t *testing.T) {
 	for round := 0; round < rounds; round++ {
 		e := c09Setup(t)
 		e.rm.IngestWorkerCount = 16
+		// sharing with a peer station is on (set before the pipeline starts), and every third registration comes from
+		// the local detector: those are the registrations whose ingest consults the sharing configuration.  The peer
+		// stand-in takes every request and answers 200.
+		peerLn, err := net.Listen("tcp", "127.0.0.1:0")
+		if err != nil {
+			t.Fatal(err)
+		}
+		var shareRequests atomic.Int64
+		go func() {
+			for {
+				c, err := peerLn.Accept()
+				if err != nil {
+					return
+				}
+				shareRequests.Add(1)
+				go func() {
+					buf := make([]byte, 65536)
+					c.Read(buf)
+					c.Write([]byte("HTTP/1.1 200 OK\r\nContent-Length: 0\r\nConnection: close\r\n\r\n"))
+					c.Close()
+				}()
+			}
+		}()
+		c09PeerEndpoints = [2]string{"http://" + peerLn.Addr().String() + "/register", "http://" + peerLn.Addr().String() + "/register-b"}
+		e.rm.EnableShareOverAPI = true
+		e.rm.PreshareEndpoint = c09PeerEndpoints[0]
+		// the liveness probe of a detector-sourced registration (destination port 1001+i, i%3 == 0, see below) takes 2 ms,
+		// so that configuration reloads (every 0.5 ms) fall into the probe, between the ingest steps before and after it
+		e.live.delayFor = func(addr string, port uint16) time.Duration {
+			if port > 1000 && (int(port)-1001)%3 == 0 {
+				return 2 * time.Millisecond
+			}
+			return 0
+		}
 		ctx, cancel := context.WithCancel(context.Background())
 		regChan := make(chan interface{}, 1000)
 		var wg sync.WaitGroup
@@ -487,7 +521,11 @@ func TestVerifC09Stress(t *testing.T) {
 		for i := range msgs {
 			b := make([]byte, 32)
 			rng.Read(b)
-			msgs[i] = c09Message(b, c09Phantom(i%12), 1+i, pb.RegistrationSource_API) // destination port 1001+i identifies the registration in announcements
+			src := pb.RegistrationSource_API
+			if i%3 == 0 {
+				src = pb.RegistrationSource_Detector
+			}
+			msgs[i] = c09Message(b, c09Phantom(i%12), 1+i, src) // destination port 1001+i identifies the registration in announcements
 		}
 		e.redis.Reset()
 		stop := make(chan struct{})
@@ -665,6 +703,8 @@ func TestVerifC09Stress(t *testing.T) {
 		}
 		close(statsStop)
 		<-statsDone
+		peerLn.Close()
+		rec.Count("share_requests_reaching_the_peer", int(shareRequests.Load()))
 		// what the detector saw, per registration (phantom, port): the first message must be the New
 		// announcement - an Update (activation) must not overtake it - and New must not be repeated
 		type annKey struct {
@@ -734,7 +774,10 @@ func c09ReloadLoop(e *c09Env, stop chan struct{}, aux *sync.WaitGroup, reloads *
 			return
 		default:
 		}
-		conf := &RegConfig{EnableIPv4: true, EnableIPv6: true, CovertBlocklistSubnets: []string{"10.0.0.0/8", "127.0.0.0/8"}}
+		// the operator's new configuration file differs from the running one in the covert blocklist and in the
+		// peer-sharing settings (on/off, which peer)
+		conf := &RegConfig{EnableIPv4: true, EnableIPv6: true, CovertBlocklistSubnets: []string{"10.0.0.0/8", "127.0.0.0/8"},
+			EnableShareOverAPI: i%4 < 3, PreshareEndpoint: c09PeerEndpoints[(i/2)%2]}
 		if i%2 == 1 {
 			conf.CovertBlocklistSubnets = append(conf.CovertBlocklistSubnets, "172.16.0.0/12")
 		}
@@ -744,6 +787,9 @@ func c09ReloadLoop(e *c09Env, stop chan struct{}, aux *sync.WaitGroup, reloads *
 		time.Sleep(500 * time.Microsecond)
 	}
 }
+
+// the peer stand-in of the current stress round (two spellings of its endpoint)
+var c09PeerEndpoints [2]string
 
 // c09WatchProgress waits for done; if the progress counter stands still for 10 s and every goroutine
 // that is inside the station library is parked in a synchronisation wait on three scans 1 s apart, the
